@@ -27,7 +27,12 @@ result is representable the C++ computes exactly the model's values:
   * a margin whose product 2*m*h is not exactly representable can make rowArea differ (`ra-unstable`);
     then the C++ rowArea is used for the re-check of the statement and the widths are not diffed.
 The statement itself (frame, never narrower, area bounds, maximum factor) is evaluated on the C++ output for
-every case, independently of the Coq model.
+every case, independently of the Coq model: available area recomputed here from the rows, the fixed obstructions
+and the margin; `within one cell height` is read inclusively with the tallest processed cell (the theorem gives
+the sharper strict bound with the last processed cell); by-factor bound = maxDensity*available + one unit per
+movable cell (theorem c18_factor_area_bound).
+Finding F18 (fixed by dfb6548 on agent/C18): before the fix expandCellsByFactor narrows movable cells wider than
+2^24 (binary32 product); the generator contains such cells (3% of the EF cases) and the corpus its witness.
 """
 import hashlib
 import json
@@ -530,17 +535,29 @@ def gen_ce(g):
                                   " ".join("%d %d %d %d %s" % (r + (tok(cg),)) for r, cg in regions))
 
 
-def gen_cases(seed, n_ed, n_ef, n_ce):
+GEN = {"ED": gen_ed, "EF": gen_ef, "CE": gen_ce}
+BLOCK = 1000
+
+
+def _gen_block(args):
+    seed, kind, b, count = args
     # common.Rng's state is seed*golden+c, so nearby seeds give shifted copies of one stream: spread the seed first
-    g = common.Rng(int(hashlib.sha256(("C18-%d" % seed).encode()).hexdigest()[:15], 16))
-    lines = []
-    for _ in range(n_ed):
-        lines.append(gen_ed(g))
-    for _ in range(n_ef):
-        lines.append(gen_ef(g))
-    for _ in range(n_ce):
-        lines.append(gen_ce(g))
-    return lines
+    g = common.Rng(int(hashlib.sha256(("C18-%d-%s-%d" % (seed, kind, b)).encode()).hexdigest()[:15], 16))
+    return [GEN[kind](g) for _ in range(count)]
+
+
+def gen_cases(seed, n_ed, n_ef, n_ce):
+    """deterministic in (seed, counts): independent blocks of 1000 cases, generated in parallel"""
+    from multiprocessing import Pool
+    jobs = []
+    for kind, n in (("ED", n_ed), ("EF", n_ef), ("CE", n_ce)):
+        for b in range((n + BLOCK - 1) // BLOCK):
+            jobs.append((seed, kind, b, min(BLOCK, n - b * BLOCK)))
+    if not jobs:
+        return []
+    with Pool(min(common.NCPU, len(jobs))) as p:
+        res = p.map(_gen_block, jobs)
+    return [l for r in res for l in r]
 
 
 # ------------------------------------------------------------------ evaluation of one case
@@ -857,6 +874,50 @@ def evaluate(lines, impl, model):
     return [x for r in res for x in r]
 
 
+# ------------------------------------------------------------------ extraction cross-check inside Coq
+ORI = ["oN", "oS", "oW", "oE", "oFN", "oFS", "oFW", "oFE", "oINVALID", "oUNKNOWN"]
+
+
+def gq(q):
+    return "((%d) # %d)" % (q.numerator, q.denominator)
+
+
+def gcirc(rows, cells):
+    rs = "; ".join("{| rr := {| minX := (%d); maxX := (%d); minY := (%d); maxY := (%d) |}; ro := %s |}"
+                   % (r[0], r[1], r[2], r[3], ORI[r[4]]) for r in rows)
+    cs = "; ".join("{| e_x := (%d); e_y := (%d); e_w := (%d); e_h := (%d); e_o := %s; e_fixed := %s; e_obs := %s |}"
+                   % (c[0], c[1], c[2], c[3], ORI[c[4]], "true" if c[5] else "false", "true" if c[6] else "false") for c in cells)
+    return "{| e_rows := [%s]; e_cells := [%s] |}" % (rs, cs)
+
+
+def vm_crosscheck(lines, model):
+    """the widths computed by the extracted OCaml code are recomputed by vm_compute inside Coq on a few cases"""
+    import re
+    sub = [(l, m) for l, m in zip(lines, model) if l[:2] in ("ED", "EF") and "expand |" in m and len(l) < 700][:24]
+    exprs = []
+    for l, m in sub:
+        tag, par, rows, cells, es = parse_case(l)
+        if tag == "ED":
+            exprs.append("match expand_to_density_br %s %s %s %s with Some (c', _) => map e_w (e_cells c') | None => [] end"
+                         % (gq(par[0]), gq(par[1]), gq(par[2]), gcirc(rows, cells)))
+        else:
+            exprs.append("match expand_by_factor_br [%s] %s %s %s with Some (c', _, _) => map e_w (e_cells c') | None => [] end"
+                         % ("; ".join(gq(e) for e in es), gq(par[0]), gq(par[1]), gcirc(rows, cells)))
+    if not exprs:
+        return 0, []
+    res = common.vm_eval("C18", "From Coq Require Import List ZArith QArith. Import ListNotations. "
+                                "Require Import CV.Orient CV.FreeSpace CV.Expand.", exprs)
+    if res is None:
+        return 0, ["vm_compute evaluation failed"]
+    bad = []
+    for (l, m), r in zip(sub, res):
+        got = [int(x) for x in re.findall(r"-?\d+", r.split(":")[0])]
+        want = ints(m.split("|")[1])
+        if got != want:
+            bad.append("vm_compute %r vs extracted %r on %s" % (got, want, l))
+    return len(sub), bad
+
+
 # ------------------------------------------------------------------ entry points
 def run(ctx):
     proof_ok, proof = common.proof_status(ctx, "C18")
@@ -865,11 +926,12 @@ def run(ctx):
     lines = common.corpus("C18", ("ED ", "EF ", "CE "))
     ncorpus = len(lines)
     seeds = [ctx.seed] if ctx.quick else [ctx.seed, ctx.seed + 1000, ctx.seed + 2000, ctx.seed + 3000]
-    per = (16000, 12000, 9000) if ctx.quick else (60000, 45000, 35000)
+    per = (30000, 22000, 14000) if ctx.quick else (150000, 110000, 70000)
     for s in seeds:
         lines += gen_cases(s, *per)
     impl, model, errs = common.run_both([harness, "run"], [driver], lines, chunk=1500)
     res = evaluate(lines, impl, model)
+    nvm, vmbad = vm_crosscheck(lines, model)
     stmt, diff, orc = [], [], []
     classes, tags, kinds = {}, {}, {"ED": 0, "EF": 0, "CE": 0}
     nontriv = set()
@@ -906,6 +968,9 @@ def run(ctx):
                           % (len(orc), orc[0][3][:300]),
                           {"broken": "checks/c18.py oracle vs coq/Expand.v", "first_difference": {"case": orc[0][0], "why": orc[0][3]}},
                           found_input=False)
+        if vmbad:
+            ctx.violation("extracted model differs from vm_compute inside Coq: " + vmbad[0][:300],
+                          {"broken": "extraction of coq/Expand.v", "detail": vmbad[:3]}, found_input=False)
         if not proof_ok:
             ctx.violation("proof obligations of Properties_C18.v do not check", {"broken": "Properties_C18.v", "detail": proof},
                           found_input=False)
@@ -929,13 +994,15 @@ def run(ctx):
                               "0..2 x widest row; factors 1+j/8, 1+j/32, decimal floats, <0.999 (throw), length mismatch; maxDensity 1, "
                               "d+r(ed-d), below d, arbitrary; congestion maps of 0-7 rectangles snapped to cell corners or random, values "
                               "1+j/16 (j>=-8) or decimal; scale x8..x4096 on 6-12%",
+        "extraction_crosschecked_by_vm_compute": nvm,
         "model_vs_impl_differences": len(diff), "impl_outputs_violating_statement": len(stmt),
         "oracle_vs_model_differences": len(orc)})
     return ctx.finish(LEVEL, cov, [
         "domain of the theorems: cell sizes >= 0 (the C++ does not reject negative sizes), caps >= 0",
         "the model idealises floating point (exact rationals); ties are exact on the exact class and within the stated tolerance elsewhere",
-        "expandCellsByFactor accumulates expandedArea in float32: beyond total areas of 2^24 the C++ is outside the exact class and only the "
-        "statement's bound with float slack is re-checked (see design/C18.md, observation O1)"])
+        "expandCellsByFactor takes float factors: outside the exact class its area bound is re-checked with the slack 2 per movable cell + "
+        "2^-22 relative (factor rounding); F18 (binary32 area accumulation / width products, fixed by dfb6548) is what the cases with "
+        "a movable cell wider than 2^24 and corpus lines 11-12 look for"])
 
 
 def replay(ctx, path):
